@@ -141,16 +141,19 @@ pub(crate) fn validate_string_length(value: &str, packet_type: PacketType, funct
         return Err(GneissError::new_packet_validation(packet_type, message));
     }
 
+    // [MQTT-1.5.4-2] A UTF-8 Encoded String MUST NOT include an encoding of the null character U+0000
+    if value.contains('\0') {
+        let message = format!("{} - {} string field contains the null character", function_name, field_name);
+        error!("{}", message);
+        return Err(GneissError::new_packet_validation(packet_type, message));
+    }
+
     Ok(())
 }
 
 pub(crate) fn validate_optional_string_length(optional_string: &Option<String>, packet_type: PacketType, function_name: &str, field_name: &str) -> GneissResult<()> {
     if let Some(value) = &optional_string {
-        if value.len() > MAXIMUM_STRING_PROPERTY_LENGTH {
-            let message = format!("{} - {} string field too long", function_name, field_name);
-            error!("{}", message);
-            return Err(GneissError::new_packet_validation(packet_type, message));
-        }
+        validate_string_length(value.as_str(), packet_type, function_name, field_name)?;
     }
 
     Ok(())
@@ -243,7 +246,8 @@ pub(crate) fn is_valid_topic(topic: &str) -> bool {
         return false;
     }
 
-    if topic.contains(['#', '+']) {
+    // no wildcards, and [MQTT-4.7.3-2] no null character
+    if topic.contains(['#', '+', '\0']) {
         return false;
     }
 
@@ -264,7 +268,8 @@ fn compute_topic_filter_properties(topic: &str) -> TopicFilterProperties {
         has_wildcard: false
     };
 
-    if topic.is_empty() || topic.len() > MAXIMUM_STRING_PROPERTY_LENGTH {
+    // [MQTT-4.7.3-2] Topic Names and Topic Filters MUST NOT include the null character
+    if topic.is_empty() || topic.len() > MAXIMUM_STRING_PROPERTY_LENGTH || topic.contains('\0') {
         properties.is_valid = false;
         return properties;
     }
